@@ -24,9 +24,10 @@ from fractions import Fraction
 
 from ..core import Sub, fail, isnum, jkey, lit, CANON_CODES, scale
 
-# delivery-channel differential (core.Env): of every 2 evaluations that bind variables, one is repeated with the
-# values handed in by the cell/range listeners and one with the values returned by custom functions; outcomes must agree
-CHANNELS = 2
+# delivery-channel and host-type differential (core.Env): of every 3 evaluations that bind variables, one is repeated with the
+# values handed in by the cell/range listeners, one with the values returned by custom functions and one with every value an
+# instance of a trivial subclass of its type (numpy.float64, IntEnum, rich-text str ... are such); outcomes must agree
+CHANNELS = 3
 
 BOUNDS = {
     'quick': 'AND/OR/XOR: every tuple of length 1..5 over {TRUE,FALSE,0,1,-2,0.0,2.5,blank} and of length 6 over '
